@@ -60,18 +60,26 @@ PublishCheck(x) ==
 
 
 \* normalisation of the topic argument: a text with the qos argument, a (text, qos) pair, or a list
+\* the first list item the check loop of _checkSubscribe stumbles over decides the class of the refusal:
+\* "for (topic, qos) in topics: if not 0 <= qos < 3" - a pair with a bad QoS gives ValueError, a text that does not
+\* unpack into two items ValueError, anything else TypeError
+SubItemBad(x) == IF x.ty = "pair" THEN ~(x.q \in 0..2) ELSE TRUE
+SubItemCls(x) == IF x.ty = "pair" THEN "ValueError" ELSE IF x.ty = "str" /\ Len(x.v) # 2 THEN "ValueError" ELSE "TypeError"
 SubTopics(arg, qos) ==
   CASE arg.ty = "str"  -> [ok |-> IsInt(qos), ts |-> <<<<arg.v, IF IsInt(qos) THEN qos.v ELSE 0>>>>, cls |-> "TypeError"]
     [] arg.ty = "pair" -> [ok |-> TRUE, ts |-> <<<<arg.t, arg.q>>>>, cls |-> ""]
     [] arg.ty = "list" -> IF \A i \in 1..Len(arg.items) : arg.items[i].ty = "pair"
                           THEN [ok |-> TRUE, ts |-> [i \in 1..Len(arg.items) |-> <<arg.items[i].t, arg.items[i].q>>], cls |-> ""]
-                          ELSE [ok |-> FALSE, ts |-> <<>>, cls |-> "TypeError"]
+                          ELSE LET bad == SelectSeq(arg.items, SubItemBad) IN
+                               [ok |-> FALSE, ts |-> <<>>, cls |-> SubItemCls(bad[1])]
     [] OTHER -> [ok |-> FALSE, ts |-> <<>>, cls |-> "TypeError"]
+\* listOK: the argument passes _checkUnsubscribe (it is a list after normalisation); a list with items that are not texts
+\* is refused only by encode(), after the second identifier has been taken
 UnsubTopics(arg) ==
-  CASE arg.ty = "str"  -> [ok |-> TRUE, ts |-> <<arg.v>>]
+  CASE arg.ty = "str"  -> [ok |-> TRUE, ts |-> <<arg.v>>, listOK |-> TRUE]
     [] arg.ty = "list" -> IF \A i \in 1..Len(arg.items) : arg.items[i].ty = "str"
-                          THEN [ok |-> TRUE, ts |-> [i \in 1..Len(arg.items) |-> arg.items[i].v]]
-                          ELSE [ok |-> FALSE, ts |-> <<>>]
-    [] OTHER -> [ok |-> FALSE, ts |-> <<>>]
+                          THEN [ok |-> TRUE, ts |-> [i \in 1..Len(arg.items) |-> arg.items[i].v], listOK |-> TRUE]
+                          ELSE [ok |-> FALSE, ts |-> <<>>, listOK |-> TRUE]
+    [] OTHER -> [ok |-> FALSE, ts |-> <<>>, listOK |-> FALSE]
 
 =============================================================================
